@@ -283,6 +283,13 @@ class BaseLoader(ABC):
 
 
 def openPackageResource(package, path):
+    if "" in package.split("."):
+        # an empty component ('.pkg', 'a..b', 'pkg.'): the import system
+        # answers some of these with KeyError rather than ImportError
+        raise ZConfig.SchemaResourceError(
+            "illegal package name: " + repr(package),
+            filename=path,
+            package=package)
     try:
         __import__(package)
     except (ImportError, ValueError) as e:
